@@ -47,6 +47,10 @@ CLAIMED['C13'] = dict(
    text='Generators: machine-checked theorem on the wrapper loop regenerated from _run_iter: every iteration, from resumption to the next suspension or to the error that ends it, hands the switch and the streams back as it found them, so between the steps of any interleaving the globals are original. Coroutines: machine-checked REFUTATION on the current tree (a has() patch spans the awaits) -- a known finding. All interleavings of the steps of 2-3 live contracted generators / coroutines (exhaustive in the thorough tier) are executed on model and implementation and compared task by task with the sequential schedule. Preemptive threads are outside the model: a deterministic two-thread probe on the implementation exhibits the known race.',
    design_ref='DESIGN.md 4.13', note=GENERIC_NOTE + ' Partial: CPython thread scheduling is not modelled; per-task outcome independence is decided by exhaustive schedule enumeration, not by a theorem.',
    technique='Coq proof over the wrapper loop regenerated from source + exhaustive interleaving correspondence')
+CLAIMED['C09'] = dict(
+   text='Machine-checked theorems on a heap model of function objects, registries and validator objects (attach / attach_has / _ensure_wrapped / update_wrapper / chain / foreign decorators): any sequence of deal decorators on a function yields one registry holding exactly the applied contracts in application order; grouping with chain or splitting the stack anywhere changes nothing; a functools.wraps-style foreign layer is never mistaken for a deal wrapper, so the next decorator opens a new registry over it and it stays in the call chain. The model is hand-written; the source of the modelled functions is pinned (a change fails the translation) and random compositions (stacks, chains, shared contract objects, wraps-style and plain foreign decorators) are executed on model and real deal with the generated wrappers, plus an independent monitor.',
+   design_ref='DESIGN.md 4.9', note=GENERIC_NOTE + ' The definition-phase functions are modelled by hand (pinned source + correspondence), not regenerated.',
+   technique='Coq proof over a hand-written heap model (source-pinned) + differential correspondence + monitor')
 UNCLAIMED_REASON = 'not claimed yet: the Coq model and check for this property are still under construction in this round (no technique switch intended)'
 checks, na = [], []
 for p in props:
